@@ -10,9 +10,18 @@ from pygopherd.handlers.base import VFS_Real
 from pygopherd.handlers.virtual import Virtual
 
 
+def maildir_messages(maildir: Maildir):
+    """The messages of a Maildir in its own order, leaving out dot-files: they
+    are not mail (for instance the directory cache file that a plain listing
+    of new/ or cur/ leaves behind)."""
+    for key in maildir.keys():
+        if not key.startswith("."):
+            yield maildir[key]
+
+
 class FolderHandler(Virtual):
 
-    mbox: typing.Union[mbox, Maildir]
+    mbox: typing.Union[mbox, Maildir, typing.Iterator[Message]]
     entries: typing.List[gopherentry.GopherEntry]
 
     def getentry(self):
@@ -193,7 +202,7 @@ class MaildirFolderHandler(FolderHandler):
         )
 
     def prepare(self):
-        self.mbox = Maildir(self.getfspath())
+        self.mbox = maildir_messages(Maildir(self.getfspath()))
         super().prepare()
 
     def getargflag(self):
@@ -205,4 +214,4 @@ class MaildirMessageHandler(MessageHandler):
         return "/MAILDIR-MESSAGE/"
 
     def openmailbox(self):
-        return Maildir(self.getfspath(), create=False)
+        return maildir_messages(Maildir(self.getfspath(), create=False))
